@@ -7,17 +7,21 @@ EXTENDS Integers, Sequences, FiniteSets, TLC, Json, P_C07
 CONSTANTS Scene, D, MaxW
 Keys == CASE Scene = "V" -> {"main.vol", "s1.vol", "s2.vol", "t.vol"}
           [] Scene = "L" -> {"s1.run", "s2.run", "t.run", "c.tick"}
+          \* P: a sound and a nested track below a sub-track whose pause has settled - their own commands must
+          \* still be read at the next callback (observed through state(); fades cannot progress while frozen)
+          [] Scene = "P" -> {"ps.run", "pn.run"}
           [] OTHER -> {"m.set"}
 Vals(k) == CASE k = "main.vol" -> {0, -40}
              [] k \in {"s1.vol", "s2.vol", "m.set"} -> {0, -20}
              [] k = "t.vol" -> {0, -10}
              [] k = "c.tick" -> {"on", "off"}
+             [] k \in {"ps.run", "pn.run"} -> {"Pausing", "Resuming"}
              [] OTHER -> {"Paused", "Pausing", "Playing", "Resuming"}
 Init0(k) == CASE k \in {"main.vol", "s1.vol", "s2.vol", "t.vol", "m.set"} -> 0
               [] k = "c.tick" -> "off"
               [] OTHER -> "Playing"
 \* pause-kind and resume-kind commands are different kinds acting on one observable: one family per window
-Family(k, v) == IF k \notin {"s1.run", "s2.run", "t.run"} THEN "x" ELSE IF v \in {"Paused", "Pausing"} THEN "p" ELSE "r"
+Family(k, v) == IF k \notin {"s1.run", "s2.run", "t.run", "ps.run", "pn.run"} THEN "x" ELSE IF v \in {"Paused", "Pausing"} THEN "p" ELSE "r"
 
 VARIABLES m, hist, nw
 Init == m = HInit([k \in Keys |-> Init0(k)]) /\ hist = <<>> /\ nw = 0
